@@ -112,6 +112,8 @@ type MapObj struct {
 	Vals []Value
 	KT   types.Type
 	VT   types.Type
+	Pre  bool   // exists before the entry call (keeper field, package variable)
+	Name string
 }
 
 type Opaque struct {
@@ -126,6 +128,7 @@ type Blob struct {
 	Typ    types.Type // struct type marshalled
 	Val    Value      // deep copy of the struct value
 	LenPfx bool       // length-prefixed encoding
+	Kind   string     // "" = protobuf bytes, "json" = amino JSON
 	Len    *smt.Term
 	ID     int
 }
@@ -203,6 +206,8 @@ func opaqueKindOf(t types.Type) string {
 		return "store"
 	case "sync.RWMutex", "sync.Mutex":
 		return "mutex"
+	case "sync.Map":
+		return "syncmap"
 	case "cosmossdk.io/math.Int":
 		return "sdkint"
 	case "github.com/cosmos/cosmos-sdk/types.Coin":
@@ -225,6 +230,8 @@ func (e *Exec) zero(t types.Type) Value {
 			return Opaque{Kind: "ctx", Data: nil}
 		case "mutex":
 			return Opaque{Kind: "mutex", Data: nil}
+		case "syncmap":
+			return Opaque{Kind: "syncmap", Data: nil}
 		case "builder":
 			return Opaque{Kind: "builder", Data: nil}
 		case "sdkint":
